@@ -40,6 +40,9 @@ type reqSpec struct {
 	Sha256  string
 	CType   string
 	CopySrc string
+	// identity headers sent BY THE CLIENT (Auth sets them for the handlers; it never removes them)
+	SpoofId    string
+	SpoofAdmin bool
 }
 
 type authSpec struct {
@@ -149,6 +152,12 @@ func build(s reqSpec, a authSpec, now time.Time) *http.Request {
 	}
 	if s.CopySrc != "" {
 		r.Header.Set("X-Amz-Copy-Source", s.CopySrc)
+	}
+	if s.SpoofId != "" {
+		r.Header.Set("S3-Identity-Id", s.SpoofId)
+	}
+	if s.SpoofAdmin {
+		r.Header.Set("S3-Is-Admin", "true")
 	}
 	if a.Damage == "expired" && (a.Mech == "v4h" || a.Mech == "v2h") {
 		now = now.Add(-48 * time.Hour) // a header-signed request with a two days old date
@@ -338,4 +347,30 @@ func v2Signature(secret, sts string) string {
 	h := hmac.New(sha1.New, []byte(secret))
 	h.Write([]byte(sts))
 	return base64.StdEncoding.EncodeToString(h.Sum(nil))
+}
+
+// streamingBody is an aws-chunked body (one data chunk and the final empty chunk) whose
+// chunk signatures chain from the seed signature found in the request's Authorization
+// header (AWS "Signature Calculations for the Authorization Header: Transferring Payload
+// in Multiple Chunks").  nil when the request has no V4 Authorization header.
+func streamingBody(r *http.Request, secret string, data []byte) []byte {
+	az := r.Header.Get("Authorization")
+	i := strings.Index(az, "Signature=")
+	amzDate := r.Header.Get("X-Amz-Date")
+	if !strings.HasPrefix(az, "AWS4-HMAC-SHA256") || i < 0 || len(amzDate) < 8 {
+		return nil
+	}
+	prev := az[i+len("Signature="):]
+	day := amzDate[:8]
+	scope := day + "/" + region + "/s3/aws4_request"
+	var b strings.Builder
+	for _, chunk := range [][]byte{data, {}} {
+		sts := "AWS4-HMAC-SHA256-PAYLOAD\n" + amzDate + "\n" + scope + "\n" + prev + "\n" + emptySHA + "\n" + sha256hex(string(chunk))
+		sig := v4Signature(secret, day, sts)
+		b.WriteString(strconv.FormatInt(int64(len(chunk)), 16) + ";chunk-signature=" + sig + "\r\n")
+		b.Write(chunk)
+		b.WriteString("\r\n")
+		prev = sig
+	}
+	return []byte(b.String())
 }
